@@ -590,14 +590,17 @@ def c19_oracle(full, io, b):
     # an object that build() or a modifier returned can always be turned into a string
     for h, n in enumerate(v.cr):
         f = full[n].split("\t")
-        if f[0] in ("bld", "mod", "jn") and v.alive(h) and h not in taint:
+        if f[0] in ("bld", "mod", "jn") and v.alive(h):
             s = v.get(h, "str")
             if s is not None and s.startswith("!"):
                 val = v.get(h, "val")
                 netloc = val[3:].split(",")[1] if val and val.startswith("L5:") else ""
                 hostinfo = dec(netloc).rpartition("@")[2] if netloc else ""
                 cls = "str-not-total"
-                if ("[" in hostinfo or "]" in hostinfo) and not re.match(r"^\[[^\[\]]*\](:[^\[\]]*)?\Z", hostinfo):
+                if h in taint:
+                    # encoded=True somewhere in the history: the text was stored unvalidated (documented: "garbage in")
+                    cls = "str-not-total-encoded"
+                elif ("[" in hostinfo or "]" in hostinfo) and not re.match(r"^\[[^\[\]]*\](:[^\[\]]*)?\Z", hostinfo):
                     cls = "malformed-brackets"
                 out.append(fail(v, h, "str", f"str() of an object returned by {f[0] if f[0]!='mod' else f[3]} raised {s}", cls))
     return out
